@@ -160,6 +160,30 @@ class Model:
         f = self.src.func('deb822:Deb822._internal_parser')
         self.rep.saw_func(f)
         fnode, _inl = normalize.inline_helpers(f)
+        fnode = normalize.genexp_loop_fusion(fnode)       # `for line in (decode(b) for b in lines)` is the loop over `lines` that decodes first
+        if _inl:
+            # the parser may be a pipeline (a generator that recognises the fields and a loop that stores them, fused above): its
+            # pieces of glue are read away -- `k, v = (a, b)`, `x = A if c else B`, a list of value lines joined with "\n" at the store
+            fnode = normalize.split_tuple_assign(fnode)
+            fnode = normalize.ifexp_to_if(fnode)
+            fnode = normalize.list_accumulator_to_string(fnode)
+            fnode, _al = normalize.propagate_aliases(fnode, only_simple=True, in_loops=True)
+            fnode = normalize.block_copy_propagation(fnode)       # (k = K; v = V; self[k] = v  ->  self[K] = V)
+            # the pending field is held in two locals; the rules below know them by the names of the pinned code (curkey, content):
+            # the names used as key and as value of the store `self[K] = V` are those two
+            ren = {}
+            for st_ in ast.walk(fnode):
+                if isinstance(st_, ast.Assign) and len(st_.targets) == 1 and isinstance(st_.targets[0], ast.Subscript) and norm(st_.targets[0].value) == 'self' \
+                        and isinstance(st_.targets[0].slice, ast.Name) and isinstance(st_.value, ast.Name):
+                    ren.setdefault(st_.targets[0].slice.id, 'curkey')
+                    ren.setdefault(st_.value.id, 'content')
+            used_ = {n_.id for n_ in ast.walk(fnode) if isinstance(n_, ast.Name)}
+            ren = {k_: v_ for k_, v_ in ren.items() if k_ != v_}
+            if ren and len(set(ren.values())) == len(ren) and not (set(ren.values()) & used_):
+                from ..core import clone as _clone
+                fnode = _clone(fnode)
+                fnode.body = [normalize._Rename(ren, {}).visit(st_) for st_ in fnode.body]
+                ast.fix_missing_locations(fnode)
         loops = [s for s in fnode.body if isinstance(s, ast.For)]
         if len(loops) != 1:
             raise AnalysisError('%s: expected one line loop' % f.site)
@@ -211,6 +235,8 @@ class Model:
                     subjects.add(rl[3])
                 elif norm(t) == 'curkey':
                     pending = pol
+                elif norm(t) in ('curkey is not None', 'curkey is None'):
+                    pending = pol if norm(t).endswith('not None') else not pol
             ck = p_.env.get('curkey')
             ct = p_.env.get('content')
             flushed = any(e[0] == 'store' and e[1] == 'self[curkey]' and norm(e[2]) == 'content' for e in p_.events)
@@ -289,7 +315,8 @@ class Model:
         list such a call is outside the template vocabulary."""
         f = self.src.func('deb822:Deb822._dump_format')
         self.rep.saw_func(f)
-        loops = [s for s in f.node.body if isinstance(s, ast.For)]
+        fnode_, _inl = normalize.inline_helpers(f)          # the line of one field may be laid out by a helper of the class
+        loops = [s for s in fnode_.body if isinstance(s, ast.For)]
         if len(loops) != 1 or norm(loops[0].iter) != 'self' or not isinstance(loops[0].target, ast.Name):
             raise AnalysisError('%s: expected `for key in self`' % f.site)
         loop = loops[0]
